@@ -37,7 +37,8 @@ After == {[t |-> "Q", q |-> Q1], [t |-> "P", name |-> "", q |-> Q1, noids |-> 0]
 
 Quiet == inq = <<>> /\ ~ENABLED ServerStep
 
-MCInit == InitWith(Cfg0) /\ hist = <<>> /\ accepted = FALSE
+\* ... or a strategy of the user's own, accepting or failing
+MCInit == (\E a \in {"clear", "custom-ok", "custom-fail"} : InitWith([Cfg0 EXCEPT !.auth = a])) /\ hist = <<>> /\ accepted = FALSE
 
 Push(m, nowait) ==
     /\ ClientSend(m)
@@ -50,7 +51,7 @@ MCSend ==
        \/ /\ Quiet /\ phase = "startup" /\ (Push(StartupMsg, FALSE) \/ Push(StartupTail, FALSE))
        \/ /\ Quiet /\ phase = "auth" /\ \E m \in InPlaceOfPassword, nw \in BOOLEAN : Push(m, nw)
        \/ /\ phase \in {"auth", "ready"} /\ Len(inq) < 2
-          /\ Len(SelectSeq(hist, LAMBDA e : e.m.t \notin {"Startup", "SSLRequest"})) \in 1..MaxAfter
+          /\ Len(SelectSeq(hist, LAMBDA e : e.m.t \notin {"Startup", "SSLRequest"})) \in (IF cfg.auth = "clear" THEN 1 ELSE 0)..MaxAfter
           /\ \E m \in After, nw \in BOOLEAN : Push(m, nw)
     /\ UNCHANGED accepted
 
@@ -59,7 +60,8 @@ MCEof ==
     /\ hist' = Append(hist, [k |-> "eof"])
     /\ UNCHANGED accepted
 
-IsValidateGood(e) == e.k = "cb" /\ e.c.name = "validate" /\ e.c.ret = "good"
+IsValidateGood(e) == \/ e.k = "cb" /\ e.c.name = "validate" /\ e.c.ret = "good"
+                     \/ e.k = "cb" /\ e.c.name = "auth" /\ cfg.auth = "custom-ok"
 
 MCServer ==
     /\ ServerStep
